@@ -36,7 +36,8 @@ def selftest_task(prop, seed, specs, profiles):
 def determinism_selftest(prop, seed, batches, profiles, jobs, n_per_batch=4):
     specs = []
     for b, runs in batches:
-        idxs = plans.batch_indices(b, runs)[:n_per_batch]
+        n = 1 if b in ("abort_enum", "conc_enum") else n_per_batch
+        idxs = plans.batch_indices(b, runs)[:n]
         specs += [(b, i) for i in idxs]
     res, _ = run_pool([(selftest_task, (prop, seed, specs, profiles))], 1)
     twice = res[0]
@@ -126,7 +127,8 @@ def run_check(prop, tier, seed, args):
                     absorb(agg, per, r)
 
             idxs = plans.batch_indices(b, runs)
-            chunk_lists = chunks(idxs, CHUNK)
+            # enumeration runs are hundreds of executions each: one per worker
+            chunk_lists = chunks(idxs, 1 if b in ("abort_enum", "conc_enum") else CHUNK)
             tasks = [(chunk_task, (prop, seed, ch, profiles[b], not args.no_minimise))
                      for ch in chunk_lists]
             _, skipped = run_pool(tasks, args.jobs, deadline=deadline, on_result=on_result)
